@@ -3,3 +3,9 @@ import StreamzVerif.Driver.Util
 import StreamzVerif.Model.TextFile
 import StreamzVerif.Proofs.TextFile
 import StreamzVerif.Props.C17
+import StreamzVerif.Model.Val
+import StreamzVerif.Model.Graph
+import StreamzVerif.Model.Edit
+import StreamzVerif.Props.C01
+import StreamzVerif.Props.C10
+import StreamzVerif.Props.C05
